@@ -26,10 +26,12 @@ const (
 	kS            // direct to S (rooms = {S})
 	kT            // direct to T (rooms = {T})
 	kAck          // direct to S with an ack id in the header (never logged, never replayed)
+	kR1xS         // to r1 except S: what S's own socket.To("r1").Emit addresses (S is in the target room AND excluded)
+	kR12xT        // to r1 and r2 except T (T is in a target room and excluded; S gets it)
 	nKinds
 )
 
-var kindNames = [nKinds]string{"all", "r1", "r2", "r1-except-r2", "all-except-S", "to-S", "to-T", "to-S+ackid"}
+var kindNames = [nKinds]string{"all", "r1", "r2", "r1-except-r2", "all-except-S", "to-S", "to-T", "to-S+ackid", "r1-except-S", "r1+r2-except-T"}
 
 // sym = kind*2 + (1 if binary)
 type sym uint8
@@ -83,6 +85,10 @@ func kindTarget(kind int, sidS, sidT string) target {
 		return target{rooms: []string{sidS}}
 	case kT:
 		return target{rooms: []string{sidT}}
+	case kR1xS:
+		return target{rooms: []string{"r1"}, except: []string{sidS}}
+	case kR12xT:
+		return target{rooms: []string{"r1", "r2"}, except: []string{sidT}}
 	}
 	panic("kind")
 }
